@@ -103,6 +103,8 @@ func ParseString(s string) (dep.Type, error) {
 				items[w] = uq
 				w++
 				quoted = quoted[:0]
+				// The outer loop increments i again.
+				i--
 				break
 			}
 		}
